@@ -112,7 +112,18 @@ def gen_model_spec(rng: Rng):
     deterministic = rng.chance(0.15)
     if deterministic:
         stds = [1.0 for _ in names]
-    return {"names": names, "eqs": eqs, "stds": stds, "logs": logs, "deterministic": deterministic}
+    # measurement block: observables that are linear in the (logarithms of the) transition variables plus a measurement shock each
+    meas = []
+    if rng.chance(0.4):
+        for j in range(rng.randint(1, 2)):
+            terms = [[rng.choice([1.0, 0.5, -0.5, 0.25, 2.0]), v] for v in rng.sample(names, rng.randint(1, min(2, n)))]
+            meas.append({"terms": terms, "const": rng.choice([0.0, 0.5, -1.0])})
+    return {"names": names, "eqs": eqs, "stds": stds, "logs": logs, "deterministic": deterministic, "meas": meas}
+
+
+def meas_names(spec):
+    k = len(spec.get("meas") or [])
+    return ["m" + "ab"[j] for j in range(k)], ["w" + "ab"[j] for j in range(k)]
 
 
 def is_log(spec, v) -> bool:
@@ -153,6 +164,12 @@ def model_source(spec, multi=False) -> str:
         rhs = " + ".join((f"p0*{ref(t[1], t[2])}" if pv and ei == pv["eq"] and ti == pv["term"] else term(*t)) for ti, t in enumerate(e["terms"])) \
             + f" + e{e['lhs']}" + (f" + {e['const']!r}" if e["const"] else "")
         lines.append(f"    {ref(e['lhs'], 0)} = {rhs};")
+    mv, mw = meas_names(spec)
+    if mv:
+        lines += ["!measurement_variables", "    " + ", ".join(mv), "!measurement_shocks", "    " + ", ".join(mw), "!measurement_equations"]
+        for nm, sh, e in zip(mv, mw, spec["meas"]):
+            rhs = " + ".join(f"{c!r}*{ref(v, 0)}" for c, v in e["terms"]) + f" + {sh}" + (f" + {e['const']!r}" if e["const"] else "")
+            lines.append(f"    {nm} = {rhs};")
     return "\n".join(lines) + "\n"
 
 
@@ -595,7 +612,7 @@ def run_impl_multi(case):
         else:
             getattr(plan, "exogenize_" + suf)(dates_arg([t], N, form_key(skey, "mx", i))[0], v)
             getattr(plan, "endogenize_" + suf)(dates_arg([ts], N, form_key(skey, "mn", i))[0], sh)
-    db2 = merge_variants(ir.Databox.steady(mm, span), [o["db2"] for _, o in singles], N, names + us + vs)
+    db2 = merge_variants(ir.Databox.steady(mm, span), [o["db2"] for _, o in singles], N, every_name(spec))
     results = []
     try:
         sim2 = simulate(mm, db2, N, case["method"], plan=plan, key=form_key(skey, "mmethod"))
@@ -608,7 +625,7 @@ def run_impl_multi(case):
         if err:
             o["error"] = err
         else:
-            o["sim2"] = variant_db(sim2, k, N, names + us + vs)
+            o["sim2"] = variant_db(sim2, k, N, every_name(spec))
             if "sim2" in out:
                 # variant locality: variant k of the multi-variant run = the singleton run of variant k
                 o["canon"], o["canon_site"] = out["sim2"], "variant-locality"
@@ -642,6 +659,10 @@ def run_impl(case):
         set_cell(db, cell[0], cell[1], val)
     for (sh, t), val in zip(case["instruments"], case["truth"]):
         set_cell(db, sh, t, val)
+    mrng = Rng(case["scramble_seed"] + 7007)
+    for sh in meas_names(spec)[1]:
+        for t in mrng.sample(list(range(N)), mrng.randint(1, min(3, N))):
+            set_cell(db, sh, t, dy(mrng, -2, 2))       # NON-ZERO measurement shocks in the input of every planned simulation
     sim1 = simulate(m, db, N, method, key=form_key(case["scramble_seed"], "first-leg"))
     skey = case["scramble_seed"]
     plan_class = PLAN_CLASSES[form_key(skey, "class") % len(PLAN_CLASSES)]
@@ -730,6 +751,12 @@ def run_impl(case):
     return results
 
 
+def every_name(spec):
+    names, us, vs = all_names(spec)
+    mv, mw = meas_names(spec)
+    return names + us + vs + mv + mw
+
+
 def all_names(spec):
     names = spec["names"]
     return names, ["e" + v for v in names], ["ant_e" + v for v in names]
@@ -779,7 +806,7 @@ def oracle_spelling(ctx: Ctx, case, r) -> bool:
     N = case["N"]
     names, us, vs = all_names(case["spec"])
     scale = scale_of(case, r)
-    for nm in names + us + vs:
+    for nm in every_name(case["spec"]):
         a, b = values(r["sim2"], nm, N), values(r["canon"], nm, N)
         if not np.all((np.abs(a - b) <= (1e-9 if r.get("canon_site") else 1e-12) * scale) | (np.isnan(a) & np.isnan(b))):
             t = int(np.nanargmax(np.abs(a - b)))
@@ -805,7 +832,8 @@ def oracle_case(ctx: Ctx, case, r, cond) -> bool:
             return False
     # (2) only endogenized shock cells move
     inst = {(s, t) for s, t in case["instruments"]}
-    for s in us + vs:
+    mv, mw = meas_names(spec)
+    for s in us + vs + mw:
         a, b = values(sim2, s, N), values(db2, s, N)
         for t in range(N):
             if (s, t) not in inst and not abs(a[t] - b[t]) <= 1e-12 * scale:
@@ -816,7 +844,18 @@ def oracle_case(ctx: Ctx, case, r, cond) -> bool:
     # (3) the output is a simulation: the plain simulator, fed with the output's shocks and initial condition, returns the output
     try:
         again = simulate(r["m"], sim2, N, "first_order")
-        for v in names:
+        if case["method"] == "first_order":
+            # (3m) every measurement variable satisfies its equation with the measurement shock as it came in (stacked_time leaves the
+            # measurement block alone: there only "the shock is returned unchanged" is demanded, clause (2))
+            for nm, sh, e in zip(mv, mw, spec.get("meas") or []):
+                rhs = sum(c * np.array([lv(spec, v, float(x)) for x in values(sim2, v, N)]) for c, v in e["terms"]) + values(db2, sh, N) + e["const"]
+                a = values(sim2, nm, N)
+                if not np.all(np.abs(a - rhs) <= tol):
+                    t = int(np.argmax(np.abs(a - rhs)))
+                    ctx.fail(f"measurement-equation-{case['method']}-{case['mode']}", case,
+                             f"{nm}[{t}] = {a[t]!r}, its equation with the input measurement shock {sh}[{t}] = {values(db2, sh, N)[t]!r} gives {rhs[t]!r}")
+                    return False
+        for v in names + (mv if case["method"] == "first_order" else []):
             a, b = values(again, v, N), values(sim2, v, N)
             if not np.all(np.abs(a - b) <= tol):
                 t = int(np.argmax(np.abs(a - b)))
@@ -843,7 +882,7 @@ def oracle_case(ctx: Ctx, case, r, cond) -> bool:
                     return False
     # (4) the round trip recovers shocks and path (tolerance only where the measured conditioning allows)
     if cond <= COND_MAX:
-        for nm in names + us + vs:
+        for nm in names + us + vs + mw:
             a, b = values(sim1, nm, N), values(sim2, nm, N)
             if not np.all(np.abs(a - b) <= tol):
                 t = int(np.argmax(np.abs(a - b)))
@@ -1006,6 +1045,8 @@ def run_cases(ctx: Ctx, cases, with_model=True):
             tag = "stage>0:" if case.get("stage", 0) > 0 else ""
             ctx.count(f"{tag}cond_{case['method']}_{case['mode']}")
             ctx.count(f"{tag}targets_{len(case['targets'])}")
+            if case["spec"].get("meas"):
+                ctx.count(f"with_measurement_block_and_nonzero_measurement_shocks:{case['method']}")
             if case["mode"] == "ant" and any(not c[0].startswith("ant_") and c[1] > 0 for c, _ in case["background"]):
                 ctx.count("two_frames(ant plan + later unanticipated shock)")
             try:
